@@ -12,7 +12,7 @@ RULE = ' || '.join('[%s] %s' % (p.__name__.split('.')[-1], getattr(p, 'RULE', ''
         'blocks plus a tail, longer messages sampled, refused sequences; distinct lines; non-trivial = the final step returned a digest')
 LEVEL_TEXT = ('Parts present: ' + ', '.join(p.__name__.split('.')[-1] for p in PARTS) + '. Lean 4 theorems, generic in the compression function, about the update/initstate skeleton shared by the MD/SHA classes (Model.HashObj over '
               'Model.Padding): block-aligned pieces followed by a final piece give the one-shot result on the concatenation and the bit counter after each piece '
-              'is the number of bits fed; pieces given with their bit length (0 bits of a non-empty buffer, 8n bits of a longer one) count their first L bits (feed_bitlen, update_pieces_bitlen, blake_update_bitlen); initstate() forgets any earlier history; tied to the code by a correspondence stream enumerating all cut-point sets up to 4 blocks.')
+              'is the number of bits fed; pieces given with their bit length (0 bits of a non-empty buffer, 8n bits of a longer one) count their first L bits (feed_bitlen, update_pieces_bitlen, blake_update_bitlen); initstate() forgets any earlier history and a one-shot call does not look at the object (call_forgets_history); BLAKE: initstate() with no keyword after a salted life is unsalted (blake_pieces_after_default_init); Nilsimsa: digest() leaves a new object, so an object reused for several messages gives the one-shot digest of each (digest_resets, reuse_eq_oneshot); several objects alive at once are values in a list, a step rewrites its own entry only (siblings_do_not_interfere, for every step function: the run projected on one object is the run of its own steps) — that the PYTHON objects share nothing is tested by the hashseqs / blakeseqs / nilsimsa.seqs lines; tied to the code by a correspondence stream enumerating all cut-point sets up to 4 blocks.')
 LEVEL_NOTE = ('Trusted: Lean kernel; axioms ⊆ {propext, Classical.choice, Quot.sound}; runcheck.py/props. Parts: MD/SHA (Proofs.C14), BLAKE/BLAKE2 (Proofs.C14_Blake; BLAKE2 with an EMPTY final piece after data is a recorded known finding), Nilsimsa (Proofs.C14_Nilsimsa). '
               'Theorem list with full/partial status: evidence/C14.json coverage.theorems.')
 TECHNIQUE = 'Lean 4 proof (continuation property of the padding iterator + fold append) + correspondence check'
